@@ -112,7 +112,7 @@ def class_source(d, names):
         lines.append('    b: Optional[str] = field(default=None, metadata={"type": "Text"})')
         body = 2
     for f in d["own_fields"]:
-        md = {"type": {"attr": "Attribute", "elem": "Element", "wild": "Wildcard"}[f["kind"]]}
+        md = {"type": {"attr": "Attribute", "elem": "Element", "wild": "Wildcard", "attrs": "Attributes"}[f["kind"]]}
         if f["ns"] is not None:
             md["namespace"] = f["ns"]
         extra = dict(f.get("md") or {})
@@ -123,7 +123,7 @@ def class_source(d, names):
             md["type"] = "Elements"
             ch = ", ".join('{"name": %r, "type": %s}' % (c[0], c[1]) for c in choices)
             mdsrc = repr(md)[:-1] + ', "choices": (' + ch + ",)}"
-        default = "default_factory=list" if f["list"] else "default=None"
+        default = "default_factory=dict" if f["kind"] == "attrs" else "default_factory=list" if f["list"] else "default=None"
         lines.append(f"    {f['name']}: {annotation(f)} = field({default}, metadata={mdsrc})")
         body += 1
     if not body and not meta:
@@ -149,7 +149,8 @@ def define(d, mod, names):
 def new_module(name):
     mod = types.ModuleType(name)
     exec("from dataclasses import dataclass, field\nfrom typing import List, Optional, Union\n"
-         "from xsdata.models.datatype import XmlDate\nfrom decimal import Decimal\n"
+         "from xsdata.models.datatype import XmlDate\nfrom decimal import Decimal\nfrom typing import Dict\n"
+         "from xml.etree.ElementTree import QName\n"
          "class Money(Decimal):\n    pass\nclass MyInt(int):\n    pass\nclass MyStr(str):\n    pass\n", mod.__dict__)
     return mod
 
@@ -198,6 +199,20 @@ def global_state():
     reg = sorted(f"{t.__module__}.{t.__qualname__}->{type(c).__name__}" for t, c in converter.registry.items())
     idx = {k: len(v) for k, v in vars(enums).items() if k.startswith("__DataType") and isinstance(v, dict)}
     return {"converter.registry": reg, "class_types": sorted(class_types.types), "enums": idx}
+
+
+def shared_fingerprint(inst):
+    """The configuration objects and plain attributes of the shared parser / serializer / decoder instances: no
+    call may leave them changed (state leaking through an instance attribute)."""
+    out = {}
+    for name, obj in vars(inst).items():
+        if name == "ctx":
+            continue
+        for k, v in vars(obj).items():
+            if k in ("context", "ns_map"):        # the context is modelled; ns_map is the write-only recorder
+                continue
+            out[f"{name}.{k}"] = repr(vars(v)) if dataclasses.is_dataclass(v) and not isinstance(v, type) else repr(v)
+    return out
 
 
 def global_diff(a, b):
@@ -460,6 +475,7 @@ def main():
     g0 = global_state()
     for seq in inp["seqs"]:
         shared = Instances()
+        fp0 = shared_fingerprint(shared)
         made, mods = [], []
         out = []
         for step in seq:
@@ -489,6 +505,10 @@ def main():
             fresh = Instances()
             rf = run_op(fresh, op)
             rec = {"shared": rs, "fresh": rf, "ts": ts, "tf": fresh.ctx.log, "mod": [before, len(sys.modules)]}
+            fp1 = shared_fingerprint(shared)
+            if fp1 != fp0:
+                rec["inst"] = "; ".join(f"{k}: {fp0.get(k)} -> {fp1.get(k)}" for k in fp1 if fp1.get(k) != fp0.get(k))[:600]
+                fp0 = fp1
             g1 = global_state()
             if g1 != g0:
                 rec["glob"] = global_diff(g0, g1)
